@@ -54,7 +54,7 @@ func c17Gen(rng *rand.Rand, conf string, idx int) any {
 	n := 1 + rng.Intn(5)
 	for i := 0; i < n; i++ {
 		p := C17Plugin{Name: fmt.Sprintf("pl%d", i), Idx: fmt.Sprintf("%02d", rng.Intn(100))}
-		kinds := []string{"valid", "valid", "empty-name", "bad-index", "never-registers", "never-configures", "bad-mask", "good-mask", "cfg-error", "retry-bad"}
+		kinds := []string{"valid", "valid", "empty-name", "bad-index", "never-registers", "never-configures", "bad-mask", "good-mask", "cfg-error", "retry-bad", "re-register", "re-register-hang"}
 		if i == 0 {
 			kinds = append(kinds, "late", "early")
 		}
@@ -71,6 +71,10 @@ func c17Gen(rng *rand.Rand, conf string, idx int) any {
 			p.DelayMs = w.TregMs + 60 + rng.Intn(200)
 		case "early":
 			p.DelayMs = w.TregMs - 60 - rng.Intn(w.TregMs-100)
+		case "re-register":
+			// registers properly, repeats the registration twice while being configured, then answers
+			// the configuration with an invalid mask
+			p.Mask = 1 << 13
 		case "bad-mask":
 			p.Mask = pick(rng, []int32{1 << 13, 1 << 14, -1, -2147483648, 1<<13 | 5, int32(rng.Uint32() | 1<<uint(13+rng.Intn(18))), 0x7fffffff})
 		case "good-mask":
@@ -131,6 +135,20 @@ func (p *pend) Configure(ctx context.Context, req *api.ConfigureRequest) (*api.C
 	p.cfgN++
 	p.mu.Unlock()
 	switch p.w.Kind {
+	case "re-register", "re-register-hang":
+		for k := 0; k < 2; k++ {
+			k := k
+			go func() {
+				p.e.S.SetGName(fmt.Sprintf("re-register-%s-%d", p.w.Name, k))
+				// the second repetition may never be answered; the connection's end releases it
+				p.rt.RegisterPlugin(context.Background(), &api.RegisterPluginRequest{PluginName: p.w.Name, PluginIdx: p.w.Idx})
+			}()
+		}
+		time.Sleep(30 * time.Millisecond)
+		if p.w.Kind == "re-register-hang" {
+			<-p.e.Hung()
+			return nil, fmt.Errorf("late")
+		}
 	case "never-configures":
 		<-p.e.Hung()
 		return nil, fmt.Errorf("late")
@@ -265,8 +283,10 @@ func c17Run(t *testing.T, wl any, sc SchedCfg) *Result {
 				bound += treg
 			case "retry-bad":
 				// rejected at its first malformed registration: no stall allowed for it
-			case "never-configures":
+			case "never-configures", "re-register-hang":
 				bound += treq
+			case "re-register":
+				bound += 30 * time.Millisecond
 			case "early":
 				bound += time.Duration(pw.DelayMs) * time.Millisecond
 			}
